@@ -176,7 +176,7 @@ class Case:
 class Contract:
     def __init__(self, cid, prop, target, setup, post, pre=(), loops=None, inline=(), native=None,
                  samples=None, generator=None, specs=(), expect_min_obligations=1, timeout_s=10,
-                 notes=(), exits=None, frame=None, max_paths=2000, known_regions=None, splits=()):
+                 notes=(), exits=None, frame=None, max_paths=2000, known_regions=None, splits=(), lemma=False, opaque=(), use_lemmas=()):
         self.id = cid
         self.prop = prop
         self.target = target          # () -> live function
@@ -194,6 +194,9 @@ class Contract:
         self.notes = list(notes)
         self.max_paths = max_paths
         self.splits = list(splits)   # case-split hints: expressions branched on at entry
+        self.lemma = lemma
+        self.opaque = set(opaque)        # spec functions kept uninterpreted (hidden definition)
+        self.use_lemmas = list(use_lemmas)   # instantiated lemma statements assumed (each proved elsewhere)
 
 
 def outcome_env(outcome):
@@ -218,8 +221,62 @@ def _spec_env(contract: Contract):
     for f in contract.specs:
         node = spec_ast(f)
         globs.update(f.__globals__)
-        env.vars[f.__name__] = VFunc(node, env, f.__globals__, f.__name__)
+        if f.__name__ in contract.opaque:
+            env.vars[f.__name__] = VNative(OpaqueInt(f.__name__, len(node.args.args)))
+        else:
+            env.vars[f.__name__] = VFunc(node, env, f.__globals__, f.__name__)
+    for name in contract.opaque:
+        globs[name] = OpaqueInt(name, None)
     return env, globs
+
+
+class OpaqueInt:
+    """An int-valued spec function whose definition is hidden: calls become applications of an
+    uninterpreted function; facts about it enter only through proved lemma instances."""
+
+    def __init__(self, name, arity):
+        self.__name__ = name
+        self.__qualname__ = 'opaque.' + name
+        self.arity = arity
+
+    def __call__(self, *a):
+        raise RuntimeError('opaque spec function called natively')
+
+    def symbolic(self, ex, *args):
+        ts = [I.as_int_term(a) for a in args]
+        if None in ts:
+            raise OutOfSubset(f'opaque {self.__name__} on non-int')
+        f = z3.Function('opaque_' + self.__name__, *([z3.IntSort()] * (len(ts) + 1)))
+        return VInt(f(*ts))
+
+
+class Lemma:
+    """A universally quantified statement over int parameters, proved once with all
+    definitions revealed (its own contract) and then usable as assumed instances in
+    contracts that keep some spec functions opaque."""
+
+    def __init__(self, name, params, stmt, specs):
+        self.name, self.params, self.stmt, self.specs = name, list(params), stmt, list(specs)
+
+    def contract(self, prop):
+        def noop():
+            return None
+        params = self.params
+        return Contract(f'lemma.{self.name}', prop, lambda: noop,
+                        lambda S, ex: [S.int(p) for p in params] and Case([]),
+                        post=[(self.name, self.stmt)], specs=self.specs, lemma=True,
+                        native=lambda i: ('return', None),
+                        samples=lambda rng: ({p: rng.randint(-10 ** 6, 10 ** 6) for p in params} for _ in iter(int, 1)))
+
+    def instance(self, **subst) -> str:
+        tree = ast.parse(self.stmt, mode='eval')
+
+        class R(ast.NodeTransformer):
+            def visit_Name(s2, node):
+                if node.id in subst:
+                    return ast.parse('(' + subst[node.id] + ')', mode='eval').body
+                return node
+        return ast.unparse(R().visit(tree))
 
 
 class PathResult:
@@ -234,7 +291,15 @@ def run_contract(contract: Contract, tier='quick', seed=0, known=None):
            'queries': 0, 'solver_s': 0.0, 'covers': 0, 'notes': contract.notes}
     try:
         fn = contract.target()
-        ext = extract(fn)
+        if getattr(contract, 'lemma', False):
+            # a lemma: a sidecar function whose body calls real functions (inlined through
+            # extract(), i.e. binding-checked); its own text lives in /verif/contracts
+            import types as _t
+            ext = _t.SimpleNamespace(node=spec_ast(fn), globals=fn.__globals__, qualname=fn.__name__,
+                                     describe=lambda: {'function': f'lemma {fn.__module__}.{fn.__name__}',
+                                                       'file': fn.__code__.co_filename, 'lines': [], 'sha256': ''})
+        else:
+            ext = extract(fn)
         res['function'] = ext.describe()
     except (ExtractError, Exception) as e:
         res['status'] = 'error'
@@ -263,7 +328,7 @@ def run_contract(contract: Contract, tier='quick', seed=0, known=None):
                 ex.assume(float_wf(v))
             if isinstance(v, VSeq):
                 ex.assume(v.len >= 0)
-        for p in contract.pre + case.pre:
+        for p in contract.pre + case.pre + contract.use_lemmas:
             ex.assume(ex.truthy(ex.spec_eval(p, env)))
         for sp in contract.splits:
             ex.branch(ex.truthy(ex.spec_eval(sp, env)))
@@ -335,13 +400,9 @@ def run_contract(contract: Contract, tier='quick', seed=0, known=None):
         rec = {'paths': len(lst), 'result': 'proved', 'backend': 'z3', 'seconds': 0.0, 'expr': lst[0][1].origin}
         for p, ob in lst:
             q0 = time.time()
-            s = z3.Solver()
-            s.set('timeout', timeout_ms)
-            s.add(*ob.pc)
-            s.add(z3.Not(ob.formula))
-            r = s.check()
+            s, r, how = portfolio_check(list(ob.pc) + [z3.Not(ob.formula)], timeout_ms)
             res['queries'] += 1
-            backend = 'z3'
+            backend = how
             model = None
             if r == z3.unknown:
                 r2 = cvc5_check(s, timeout_ms)
@@ -352,13 +413,13 @@ def run_contract(contract: Contract, tier='quick', seed=0, known=None):
             rec['seconds'] += dt
             res['solver_s'] += dt
             if r == z3.unsat:
-                if backend == 'cvc5':
-                    rec['backend'] = 'z3+cvc5'
-                if tier == 'thorough' and backend == 'z3':
+                if backend != 'z3':
+                    rec['backend'] = backend if backend.startswith('z3') else 'z3+cvc5'
+                if tier == 'thorough' and backend.startswith('z3'):
                     r2 = cvc5_check(s, timeout_ms)
                     rec.setdefault('cross', []).append(r2)
                 continue
-            if r == z3.sat and backend == 'z3':
+            if r == z3.sat and backend.startswith('z3'):
                 S = sym_holder['S']
                 inputs, confirmed, nat, model = confirm_loop(s, S, p, contract, label)
                 rec['result'] = 'refuted'
@@ -469,6 +530,33 @@ def confirm_loop(s: z3.Solver, S: Sym, p, contract: Contract, label: str, attemp
         if confirmed:
             return inputs, True, nat, model
     return first if first is not None else (None, None, None, None)
+
+
+def portfolio_check(assertions, timeout_ms):
+    """z3 default (short budget) -> z3 qflia tactic -> z3 default (full budget).
+    Returns (solver, result, how)."""
+    short = min(2000, timeout_ms)
+    s = z3.Solver()
+    s.set('timeout', short)
+    s.add(*assertions)
+    r = s.check()
+    if r != z3.unknown:
+        return s, r, 'z3'
+    try:
+        t = z3.Then('simplify', 'purify-arith', 'solve-eqs', 'qflia').solver()
+        t.set('timeout', timeout_ms)
+        t.add(*assertions)
+        r2 = t.check()
+        if r2 != z3.unknown:
+            return t, r2, 'z3-qflia'
+    except z3.Z3Exception:
+        pass
+    if timeout_ms > short:
+        s = z3.Solver()
+        s.set('timeout', timeout_ms)
+        s.add(*assertions)
+        r = s.check()
+    return s, r, 'z3'
 
 
 def cvc5_check(solver: z3.Solver, timeout_ms: int) -> str:
